@@ -1,1 +1,277 @@
-pub fn c22_subs() -> Vec<vcore::Sub> { vec![] }
+//! C22 (constraint level) — boundary constraints vanish exactly on asserted cells; divisors vanish
+//! exactly on the group's asserted points; coefficient assignment is independent of listing order.
+
+use std::collections::{BTreeSet, HashSet};
+use std::sync::Arc;
+
+use vcore::*;
+use vfield::{gen_elem, gen_int, Mix, Spec as FSpec, F128, F62, F64, Q};
+use winter_air::{Air, AuxRandElements, BatchingMethod, BoundaryConstraintGroup, FieldExtension, ProofOptions, TraceInfo};
+use winter_math::{ExtensionOf, FieldElement, StarkField};
+
+use crate::air::{GenAir, PubInputs};
+use crate::spec::*;
+
+pub fn c22_subs() -> Vec<Sub> {
+    vec![Sub::gen("constraints", constraints, 200, 30_000, 800_000)]
+}
+
+pub const C22_RULE: &str = "case = valid (pairwise non-overlapping) assertion set: 1..12 main assertions and optionally 1..5 auxiliary assertions of all kinds (single; periodic; sequence of 2..n/2 values with any first step and stride, incl. >= 64 values; several assertions sharing one divisor) over n = 8..1024, f62/f64/f128 and their quadratic extensions, with known distinct composition coefficients, listed in a generated order. Oracle: for every group the divisor vanishes on exactly the asserted steps of the group over the whole trace domain and has degree equal to their number; every constraint evaluates to 0 at each asserted step for the asserted value and to delta for value + delta; off the domain the group's evaluation equals sum cc_i (state[col_i] - P_i(x)) / prod (x - g^s) with P_i by Lagrange interpolation from the definition; divisors, value polynomials and coefficients are identical under a permutation of the AIR's assertion list (vstark additionally: identical proof bytes). Non-trivial = at least two different divisors; distinct = hash of the assertion set.";
+pub fn c22_assumptions() -> Vec<&'static str> {
+    vec![
+        "assertion sets are made non-overlapping with the harness's own cell-set predicate (overlap detection itself is C21's subject)",
+        "the reference uses winterfell's field operators (C10's subject) but only definition-level formulas: explicit products over roots and Lagrange sums, no FFT, no Assertion::apply",
+    ]
+}
+
+pub const C22_REQUIRED: &[&str] = &["sequence_ge_64", "first_step_nonzero", "aux_assertion", "permutation_not_identity", "groups_ge_2", "ext_field", "shared_divisor"];
+
+fn constraints(s: &mut Src, rec: &mut Rec) -> CaseResult {
+    match s.below(6) {
+        0 => run::<F62, <F62 as FSpec>::B>(s, rec),
+        1 => run::<F64, <F64 as FSpec>::B>(s, rec),
+        2 => run::<F128, <F128 as FSpec>::B>(s, rec),
+        3 => run::<F62, Q<<F62 as FSpec>::B>>(s, rec),
+        4 => run::<F64, Q<<F64 as FSpec>::B>>(s, rec),
+        _ => run::<F128, Q<<F128 as FSpec>::B>>(s, rec),
+    }
+}
+
+/// a valid (pairwise non-overlapping) set of assertions with arbitrary values
+fn gen_assertion_set<S: FSpec>(s: &mut Src, n: usize, width: usize, count: usize, rec: &mut Rec) -> Vec<AssertSpec> {
+    let log_n = n.ilog2();
+    let mut used: HashSet<(usize, usize)> = HashSet::new();
+    let mut out: Vec<AssertSpec> = vec![];
+    let mut tries = 0;
+    let mut mix = Mix(s.u64());
+    while out.len() < count && tries < 6 * count + 10 {
+        tries += 1;
+        let col = s.below(width as u64) as usize;
+        // reuse the (stride, first) of an earlier assertion now and then: several constraints share one divisor
+        let reuse = !out.is_empty() && s.chance(1, 3);
+        let a = if reuse {
+            let prev = s.pick(&out).clone();
+            let vals: Vec<u128> = prev.values.iter().map(|_| mix.int::<S>()).collect();
+            AssertSpec { column: col, values: vals, ..prev }
+        } else {
+            match s.below(4) {
+                0 => {
+                    let step = match s.below(4) {
+                        0 => 0,
+                        1 => n - 1,
+                        _ => s.below(n as u64) as usize,
+                    };
+                    AssertSpec { column: col, first: step, stride: 0, values: vec![gen_int::<S>(s)], kind: 0 }
+                },
+                1 => {
+                    let stride = 1usize << s.range(1, log_n as u64);
+                    AssertSpec { column: col, first: s.below(stride as u64) as usize, stride, values: vec![gen_int::<S>(s)], kind: 1 }
+                },
+                _ => {
+                    let len = 1usize << s.range(1, (log_n - 1) as u64);
+                    let stride = n / len;
+                    let first = if s.chance(1, 3) { 0 } else { s.below(stride as u64) as usize };
+                    AssertSpec { column: col, first, stride, values: (0..len).map(|i| if i < 2 { gen_int::<S>(s) } else { mix.int::<S>() }).collect(), kind: 2 }
+                },
+            }
+        };
+        let cells: Vec<(usize, usize)> = a.steps(n).into_iter().map(|st| (a.column, st)).collect();
+        if cells.iter().all(|c| !used.contains(c)) {
+            for c in cells {
+                used.insert(c);
+            }
+            rec.class_if(a.kind == 2 && a.values.len() >= 64, "sequence_ge_64");
+            rec.class_if(a.kind != 0 && a.first != 0, "first_step_nonzero");
+            rec.class_if(reuse, "shared_divisor");
+            out.push(a);
+        }
+    }
+    if out.is_empty() {
+        out.push(AssertSpec { column: 0, first: 0, stride: 0, values: vec![1], kind: 0 });
+    }
+    out
+}
+
+fn shuffle<T>(s: &mut Src, v: &mut [T]) -> bool {
+    let mut moved = false;
+    for i in (1..v.len()).rev() {
+        let j = s.below(i as u64 + 1) as usize;
+        if i != j {
+            moved = true;
+        }
+        v.swap(i, j);
+    }
+    moved
+}
+
+fn make_air<S: FSpec>(n: usize, width: usize, aux_width: usize, main: Vec<AssertSpec>, aux: Vec<AssertSpec>) -> GenAir<S> {
+    let spec = Spec {
+        field: S::NAME,
+        main_width: width,
+        aux: (0..aux_width).map(|_| AuxKind::Sum { c1: 0, c2: 0, rand: 0 }).collect(),
+        num_rands: if aux_width > 0 { 1 } else { 0 },
+        trace_len: n,
+        exemptions: 1,
+        periodic: vec![],
+        constraints: (0..width).map(|j| MainConstraint { f: vec![Term { coef: 1, vars: vec![(j, 1)] }], g: vec![], periodic: None }).collect(),
+        assertions: main,
+        aux_assertions: aux,
+        tag: 0,
+        meta: vec![],
+        keep_tail: vec![true; width],
+    };
+    let options = ProofOptions::new(1, 2, 0, FieldExtension::None, 2, 0, BatchingMethod::Linear, BatchingMethod::Linear);
+    let info = TraceInfo::new_multi_segment(width, aux_width, if aux_width > 0 { 1 } else { 0 }, n, vec![]);
+    let air = GenAir::<S>::new(info, PubInputs::new(Arc::new(spec)), options);
+    assert!(!air.degenerate, "harness: C22 spec not accepted by GenAir");
+    air
+}
+
+/// checks one family of groups (main or aux) against the assertion list it was derived from
+#[allow(clippy::too_many_arguments)]
+fn check_groups<S: FSpec, F, E>(groups: &[BoundaryConstraintGroup<F, E>], asserts: &[AssertSpec], n: usize, width: usize, seen_cc: &mut Vec<E>, label: &str, s: &mut Src, rec: &mut Rec) -> CaseResult
+where
+    F: FieldElement<BaseField = S::B>,
+    E: FieldElement<BaseField = S::B> + ExtensionOf<F>,
+{
+    let g = <S::B as StarkField>::get_root_of_unity(n.ilog2());
+    let domain: Vec<S::B> = {
+        let mut v = Vec::with_capacity(n);
+        let mut x = S::B::ONE;
+        for _ in 0..n {
+            v.push(x);
+            x *= g;
+        }
+        v
+    };
+    let total: usize = groups.iter().map(|gr| gr.constraints().len()).sum();
+    ensure!(total == asserts.len(), "constraint-count", "{label}: {} boundary constraints for {} assertions", total, asserts.len());
+    rec.class_if(groups.len() >= 2, "groups_ge_2");
+    let mut matched: BTreeSet<usize> = BTreeSet::new();
+    for (gi, group) in groups.iter().enumerate() {
+        // zero set of the divisor over the whole trace domain
+        let zeros: BTreeSet<usize> = (0..n).filter(|st| group.divisor().evaluate_at(E::from(domain[*st])) == E::ZERO).collect();
+        ensure!(group.divisor().degree() == zeros.len(), "divisor-degree", "{label} group {gi}: divisor degree {} but it vanishes on {} trace-domain points", group.divisor().degree(), zeros.len());
+        for c in group.constraints() {
+            // the assertion this constraint was derived from: same column, same step set
+            let found = asserts.iter().enumerate().find(|(i, a)| !matched.contains(i) && a.column == c.column() && a.steps(n).into_iter().collect::<BTreeSet<_>>() == zeros);
+            let Some((ai, a)) = found else {
+                return Err(Fail::new("divisor-zero-set", format!("{label} group {gi}: the divisor vanishes on steps {:?}.. which is not the step set of any assertion on column {} (assertions: {:?})", zeros.iter().take(6).collect::<Vec<_>>(), c.column(), asserts.iter().map(|a| (a.column, a.first, a.stride, a.values.len())).collect::<Vec<_>>())));
+            };
+            matched.insert(ai);
+            seen_cc.push(*c.cc());
+            for (i, st) in a.steps(n).into_iter().enumerate() {
+                let x = E::from(domain[st]);
+                let v = E::from(S::from_int(a.value_at(i) % S::P));
+                let at = c.evaluate_at(x, v);
+                ensure!(at == E::ZERO, "constraint-nonzero-at-asserted-value", "{label}: constraint for assertion (col {}, first {}, stride {}, {} values) does not vanish at asserted step {st} when the trace holds the asserted value", a.column, a.first, a.stride, a.values.len());
+                let delta = E::from(S::from_int(1 + (st as u128 % 7)));
+                let off = c.evaluate_at(x, v + delta);
+                ensure!(off == delta, "constraint-zero-at-wrong-value", "{label}: constraint for assertion (col {}, first {}, stride {}) evaluates to {off} instead of the deviation {delta} at step {st}", a.column, a.first, a.stride);
+            }
+        }
+        // off-domain: the group's rational function equals its definition (small groups only: the reference is quadratic)
+        let group_asserts: Vec<&AssertSpec> = asserts.iter().filter(|a| group.constraints().iter().any(|c| c.column() == a.column) && a.steps(n).into_iter().collect::<BTreeSet<_>>() == zeros).collect();
+        if zeros.len() <= 64 && group_asserts.len() == group.constraints().len() {
+            let (x, _) = gen_elem::<S, E>(s);
+            let z = zeros.iter().fold(E::ONE, |acc, st| acc * (x - E::from(domain[*st])));
+            if z != E::ZERO {
+                let mut mix = Mix(0x77 + gi as u64);
+                let state: Vec<E> = (0..width).map(|_| mix.elem::<S, E>().0).collect();
+                let mut num = E::ZERO;
+                for c in group.constraints() {
+                    let a = group_asserts.iter().find(|a| a.column == c.column()).unwrap();
+                    // Lagrange value of the assertion's value polynomial at x, from the definition
+                    let steps = a.steps(n);
+                    let mut p = E::ZERO;
+                    if a.kind == 2 {
+                        for (i, si) in steps.iter().enumerate() {
+                            let xi = E::from(domain[*si]);
+                            let mut l = E::from(S::from_int(a.values[i] % S::P));
+                            for sj in steps.iter() {
+                                if sj != si {
+                                    let xj = E::from(domain[*sj]);
+                                    l *= (x - xj) / (xi - xj);
+                                }
+                            }
+                            p += l;
+                        }
+                    } else {
+                        p = E::from(S::from_int(a.values[0] % S::P));
+                    }
+                    num += *c.cc() * (state[c.column()] - p);
+                }
+                let want = num / z;
+                let got = group.evaluate_at(&state, x);
+                ensure!(got == want, "group-evaluation", "{label} group {gi} ({} constraints, {} asserted steps): evaluate_at off the trace domain differs from sum cc_i (state - value_poly(x)) / prod (x - g^s)", group.constraints().len(), zeros.len());
+            }
+        }
+    }
+    ensure!(matched.len() == asserts.len(), "assertion-without-constraint", "{label}: some assertion has no boundary constraint");
+    Ok(())
+}
+
+fn same_groups<F, E>(a: &[BoundaryConstraintGroup<F, E>], b: &[BoundaryConstraintGroup<F, E>]) -> bool
+where
+    F: FieldElement,
+    E: FieldElement<BaseField = F::BaseField> + ExtensionOf<F>,
+{
+    a.len() == b.len() && a.iter().zip(b).all(|(x, y)| x.divisor() == y.divisor() && x.constraints() == y.constraints())
+}
+
+fn run<S: FSpec, E: FieldElement<BaseField = S::B> + ExtensionOf<S::B>>(s: &mut Src, rec: &mut Rec) -> CaseResult {
+    rec.class_if(E::EXTENSION_DEGREE > 1, "ext_field");
+    let log_n = match s.below(4) {
+        0 => 3,
+        1 => s.range(7, 10),
+        _ => s.range(3, 8),
+    } as u32;
+    let n = 1usize << log_n;
+    let width = s.range(1, 6) as usize;
+    let aux_width = if s.chance(1, 3) { s.range(1, 3) as usize } else { 0 };
+    let count = s.range(1, 12) as usize;
+    let main = gen_assertion_set::<S>(s, n, width, count, rec);
+    let aux = if aux_width > 0 {
+        rec.class("aux_assertion");
+        let c = s.range(1, 5) as usize;
+        gen_assertion_set::<S>(s, n, aux_width, c, rec)
+    } else {
+        vec![]
+    };
+    let total = main.len() + aux.len();
+    let coeffs: Vec<E> = (0..total).map(|i| E::from(S::from_int(1_000_003 + 17 * i as u128))).collect();
+    rec.set_fp(&(S::NAME, E::EXTENSION_DEGREE, n, width, &main, &aux));
+    rec.describe(|| json!({"field": S::NAME, "extension_degree": E::EXTENSION_DEGREE, "n": n, "main_assertions": main.iter().map(|a| json!([a.column, a.first, a.stride, a.values.len()])).collect::<Vec<_>>(), "aux_assertions": aux.iter().map(|a| json!([a.column, a.first, a.stride, a.values.len()])).collect::<Vec<_>>()}));
+    if main.iter().map(|a| (a.stride, a.first)).collect::<BTreeSet<_>>().len() >= 2 {
+        rec.nontrivial();
+    }
+    let rands = AuxRandElements::new(vec![E::ONE]);
+    let aux_arg = if aux_width > 0 { Some(&rands) } else { None };
+    let air = make_air::<S>(n, width, aux_width, main.clone(), aux.clone());
+    let bc = match catch(|| air.get_boundary_constraints::<E>(aux_arg, &coeffs)) {
+        Ok(b) => b,
+        Err(pn) => return Err(Fail::new(pn.key(), format!("get_boundary_constraints panicked on a valid (non-overlapping) assertion set: {} at {}", pn.message, pn.location))),
+    };
+    let mut seen: Vec<E> = vec![];
+    check_groups::<S, S::B, E>(bc.main_constraints(), &main, n, width, &mut seen, "main", s, rec)?;
+    check_groups::<S, E, E>(bc.aux_constraints(), &aux, n, aux_width.max(1), &mut seen, "aux", s, rec)?;
+    // every coefficient is used exactly once
+    let mut a: Vec<String> = seen.iter().map(|c| format!("{c}")).collect();
+    let mut b: Vec<String> = coeffs.iter().map(|c| format!("{c}")).collect();
+    a.sort();
+    b.sort();
+    ensure!(a == b, "coefficients-not-a-permutation", "the composition coefficients attached to the constraints are not exactly the supplied ones");
+    // listing order does not matter
+    let mut main2 = main.clone();
+    let mut aux2 = aux.clone();
+    let m1 = shuffle(s, &mut main2);
+    let m2 = shuffle(s, &mut aux2);
+    if m1 || m2 {
+        rec.class("permutation_not_identity");
+    }
+    let air2 = make_air::<S>(n, width, aux_width, main2, aux2);
+    let bc2 = air2.get_boundary_constraints::<E>(aux_arg, &coeffs);
+    ensure!(same_groups(bc.main_constraints(), bc2.main_constraints()) && same_groups(bc.aux_constraints(), bc2.aux_constraints()), "order-dependent-coefficients", "{} n = {n}: boundary constraints (divisors, value polynomials or composition coefficients) change when the AIR lists the same assertions in a different order", S::NAME);
+    rec.weight = total as u64;
+    Ok(())
+}
